@@ -45,3 +45,14 @@ check("C31", "exploration",
   "Trusted: the in-memory file system model (harness-stamped, strictly increasing mtimes), validity of generated zone files by construction. Signal delivery and daemon start-up are stubbed (the harness calls the handler body through the verif_reload hook).",
   "deterministic simulation: simulated file system and clock with injected I/O faults, history search against a reference model",
   "E3 simrt-sequential", "DESIGN.md section 4 (C31)")
+ENGINES[1]["serves_properties"] = ["C24", "C25", "C26", "C27", "C31"]
+check("C24", "exploration",
+  "Seeded corpus of zone files (syntactically rich valid files, token soups, byte-level mutations, fields around the buffer and field-size limits, RFC 3597 generic RDATA valid and invalid for known types, forbidden types) parsed through a stream with injected read faults: read sizes 1..16385 (refills inside tokens), EINTR at chosen calls or for ever, EIO after k octets, torn after k octets (every k for small files), bit flips. Oracles: no unwind; bounded number of read calls (termination); nothing after the first error; every yielded record has an allowed type and RDATA accepted by Rdata::validate; independence from read chunking; after a read error the items yielded are a prefix of the fault-free sequence (may fail, never different data). Sampling, not proof.",
+  "Trusted: Rdata::validate as the definition of valid RDATA (the property's own definition). The property's quantifier 'any input bytes' is sampled, not enumerated.",
+  "deterministic simulation: fault-injecting Read stream (short reads, EINTR, EIO, torn, bit flips) over a seeded corpus, differential against the fault-free one-shot parse",
+  "E3 simrt-sequential", "DESIGN.md section 4 (C24)")
+check("C25", "exploration",
+  "Seeded trees of 1-6 zone files on a simulated file system with $INCLUDE (with/without origin, relative / ../ / absolute paths, cycles), context-dependent records after includes, depth limits 0-16 and injected faults (missing target, directory, EIO after k octets, short reads); the real fs::Parser is compared record by record (path, line, owner, TTL, class, type, RDATA) and error by error (kind, path, line) with the harness's textual-flattening model. Sampling, not proof.",
+  "Trusted: the flattening model (include replaced by optional $ORIGIN o + contents + restoring $ORIGIN), the repository's single-stream parser as the oracle for record syntax on the flattened text.",
+  "deterministic simulation: simulated file system with injected I/O faults, reference flattening model",
+  "E3 simrt-sequential", "DESIGN.md section 4 (C25)")
